@@ -70,6 +70,7 @@ type harness struct {
 	run   *hx.Run
 	model *hx.Model
 	quiet bool // no counters / obligations (shrinking, classifier probes)
+	reported map[string]int
 }
 
 func (h *harness) count(k string) {
@@ -162,6 +163,7 @@ func (h *harness) runCase(c *Case) (fails []failure, rejected bool) {
 	defer resetBuiltinDirectives()
 	bt, s, err := safeBuild(c.S)
 	if err != nil {
+		h.count("schema.New error: " + errClass(err.Error()))
 		return nil, true
 	}
 	fail := func(f failure) { fails = append(fails, f) }
@@ -181,7 +183,7 @@ func (h *harness) runCase(c *Case) (fails []failure, rejected bool) {
 				continue
 			}
 			if len(errs) > 0 {
-				fail(failure{Part: "intro", Kind: "property", Class: "intro-errors", What: fmt.Sprintf("features %v: the introspection query answered with errors: %v", F, errs[0])})
+				fail(failure{Part: "intro", Kind: "property", Class: "intro-errors:" + errClass(errs[0]), What: fmt.Sprintf("features %v: the introspection query answered with errors: %v", F, errs[0])})
 				continue
 			}
 			got, err := parseIntro(data)
@@ -264,6 +266,20 @@ func (h *harness) runCase(c *Case) (fails []failure, rejected bool) {
 		fails = append(fails, h.clonePart(c, bt, s)...)
 	}
 	return fails, false
+}
+
+// errClass keeps the letters of the first words of an error message (a coarse class for shrinking).
+func errClass(msg string) string {
+	out := []rune{}
+	for _, c := range msg {
+		if len(out) >= 18 {
+			break
+		}
+		if (c >= 'a' && c <= 'z') || c == ' ' {
+			out = append(out, c)
+		}
+	}
+	return string(out)
 }
 
 func sameSet(a, b []string) bool { return subset(a, b) && subset(b, a) }
@@ -699,6 +715,16 @@ func (h *harness) check(c *Case) {
 			continue
 		}
 		seen[sig(f)] = true
+		if os.Getenv("VERIF_DEBUG") != "" {
+			fmt.Printf("FAIL %s: %s\n", sig(f), f.What)
+		}
+		// hx keeps at most 3 violations per (kind, finding): do not spend time shrinking the rest
+		vk := f.Kind + ":" + f.Finding
+		h.reported[vk]++
+		if h.reported[vk] > 3 {
+			h.run.Violate(f.Kind, "["+f.Part+"] "+f.What, f.Finding, f.NoInput, c)
+			continue
+		}
 		sc, sf := h.shrink(c, f)
 		h.run.Violate(sf.Kind, "["+sf.Part+"] "+sf.What, sf.Finding, sf.NoInput, sc)
 	}
@@ -942,7 +968,7 @@ func featureSetsFor(r *hx.Rand, d *SDef) [][]string {
 
 func main() {
 	run := hx.Init("C10")
-	h := &harness{run: run}
+	h := &harness{run: run, reported: map[string]int{}}
 	if run.ModelPath != "" {
 		m, err := hx.StartModel(run.ModelPath)
 		if err != nil {
